@@ -415,6 +415,18 @@ func verifC35Exec(op string) string {
 		return "ok"
 	case "http":
 		return c35http(f[1], verifutil.UnHex(f[2]))
+	case "dump": // dump <declared length> <body: hex | z<len>>
+		var body []byte
+		if strings.HasPrefix(f[2], "z") {
+			body = bytes.Repeat([]byte{'a'}, verifutil.Atoi(f[2][1:]))
+		} else {
+			body = verifutil.UnHex(f[2])
+		}
+		out := httpp.VerifC35Dump(verifutil.AtoI64(f[1]), body)
+		if len(out) > 64 {
+			return fmt.Sprintf("len %d tail %s", len(out), verifutil.Hex(out[len(out)-20:]))
+		}
+		return "body " + verifutil.Hex(out)
 	case "mq":
 		switch f[1] {
 		case "open":
@@ -1011,10 +1023,19 @@ func c35moqHistory(r *verifutil.Rand) []string {
 }
 
 func verifC35Gen(r *verifutil.Rand, i int, thorough bool) []string {
-	switch r.Intn(16) {
+	k := 16
+	if thorough {
+		k = 96 // the socket / session ops are slow: keep the thorough tier within its budget
+	}
+	switch r.Intn(k) {
 	case 0:
 		return c35moqHistory(r)
 	case 1, 2:
+		if r.Intn(5) == 0 {
+			cl := r.Pick("-1", "0", "5", "10240", "10241", "9223372036854775807", "-9223372036854775808", "1")
+			body := r.Pick("-", "68656c6c6f", "z10239", "z10240", "z10241", "z10242", "z30000", "z1")
+			return []string{"reset", "dump " + cl + " " + body}
+		}
 		return []string{"reset", c35httpOp(r)}
 	}
 	var op string
@@ -1087,7 +1108,7 @@ func TestVerifC35(t *testing.T) {
 		t.Skip("VERIF_OUT not set")
 	}
 	h := &verifutil.Harness{
-		ID: "C35", Exec: verifC35Exec, Gen: verifC35Gen, Quick: 5000, Thorough: 150000,
+		ID: "C35", Exec: verifC35Exec, Gen: verifC35Gen, Quick: 4000, Thorough: 120000,
 		Class:      verifC35Class,
 		NonTrivial: func(op, impl string) bool { return op != "reset" },
 	}
